@@ -31,6 +31,7 @@ EventOK(e) ==
          /\ LET f == LocalFields(e.res)  target == NormDays(e.y, e.m, e.d) IN
             \/ /\ DatePart(f) = CivilFromDays(target)
                /\ f[4] = 0 /\ f[5] = 0 /\ f[6] = 0 /\ e.res[3] % 1000 = 0
+               /\ e.res[4] = e.loff          \* midnight of the zone the process has now (time.Local as the host set it)
             \/ /\ Len(e.gap) = 2 /\ IsTime(e.gap[1]) /\ IsTime(e.gap[2]) /\ OneMsBefore(Inst(e.gap[1]), Inst(e.gap[2]))
                /\ LET p == LocalFields(e.gap[1])  q == LocalFields(e.gap[2])
                       dq == DaysFromCivil(q[1], q[2], q[3]) IN
@@ -51,7 +52,7 @@ EventOK(e) ==
     [] e.ev = "today" ->
          /\ IsTime(e.res)
          /\ LET g == LocalFields(e.res) IN
-            /\ g[4] = 0 /\ g[5] = 0 /\ g[6] = 0 /\ e.res[3] % 1000 = 0
+            /\ g[4] = 0 /\ g[5] = 0 /\ g[6] = 0 /\ e.res[3] % 1000 = 0 /\ e.res[4] = e.loff
             /\ DatePart(g) \in {DatePart(LocalFields(e.t0)), DatePart(LocalFields(e.t1))}
     [] e.ev = "format" ->
          LET r == FormatLayout(e.layout, LocalFields(e.t)) IN r[1] => r[2] = e.res
